@@ -4,3 +4,6 @@ import InToto.Properties.C05
 #print axioms InToto.C05.reference_irrelevant
 #print axioms InToto.C05.single_link
 #print axioms InToto.C05.differing_products_example
+#print axioms InToto.C05.acceptance_implies_agreement
+#print axioms InToto.C05.disagreement_in_any_step_fails
+#print axioms InToto.C05.rules_see_the_agreed_link
